@@ -33,7 +33,8 @@ LEVEL_TEXT = ("Exploration: every generated tree (all shape classes with emphasi
               " Fan-outs of exactly 255 / 256 / 257 / 512 / 513 at the root and at an interior node; size sweep to 2050 nodes."
               " BranchTree instances handed to ToBranchTree / from_tree."
               " Decompositions asked for from inside the callbacks of a traversal of another tree."
-              " One tree of 40 000 .. 70 000 nodes through the decompositions.")
+              " One tree of 40 000 .. 70 000 nodes through the decompositions."
+              " The lists handed out are emptied / reversed in place and the decompositions asked for again.")
 LEVEL_NOTE = ("Branch / path order is free (sets of id tuples); ToLongestPath ties within 1e-6 "
               "relative are inconclusive; Node.branch is decided for pass-through nodes, tips and a "
               "root with one child (for a furcation the statement says nothing).")
